@@ -182,14 +182,29 @@ def main(ctx, replay=None):
 
 
 class RecAxes:
+    """Recording stand-in for a matplotlib axes: remembers the curves drawn (one per column when a 2-D array is plotted at once);
+    every other axes method is accepted and ignored."""
+
     def __init__(self):
         self.lines, self.scatters = [], []
 
     def plot(self, x, y, *a, **k):
-        self.lines.append((numpy.asarray(x), numpy.asarray(y)))
+        y = numpy.asarray(y)
+        for col in (y.T if y.ndim == 2 else [y]):
+            self.lines.append((numpy.asarray(x), numpy.asarray(col)))
 
     def scatter(self, x, y, *a, **k):
         self.scatters.append((numpy.asarray(x), numpy.asarray(y)))
+
+    def __getattr__(self, name):
+        return lambda *a, **k: None
+
+
+def same_curves(lines, arr, ks):
+    """the drawn curves are exactly the columns ks of arr, in any order"""
+    drawn = sorted(tuple(numpy.asarray(y, dtype=float).tolist()) for _, y in lines)
+    want = sorted(tuple(numpy.asarray(arr[:, k], dtype=float).tolist()) for k in ks)
+    return drawn == want
 
 
 def plot_table(ctx, table, rng):
@@ -219,8 +234,8 @@ def plot_table(ctx, table, rng):
                 continue
             want = src[table[str(n)]][:, iq, :]
             ks = [k for k in range(np_) if not (iq == 0 and k < 3)]
-            ok = len(ax.lines) == len(ks) and all(numpy.array_equal(ax.lines[i][1], want[:, k]) for i, k in enumerate(ks))
+            ok = same_curves(ax.lines, want, ks)
             if not ok:
-                drawn = next((nm for nm, arr in src.items() if len(ax.lines) == len(ks) and all(numpy.array_equal(ax.lines[i][1], arr[:, iq, k]) for i, k in enumerate(ks))), "something else")
+                drawn = next((nm for nm, arr in src.items() if same_curves(ax.lines, arr[:, iq, :], ks)), "something else")
                 ctx.violation(f"plot_modes(n={n}, iq={iq}) draws {drawn}, the documented quantity for n={n} is {table[str(n)]}",
                               {"n": n, "iq": iq, "drawn": drawn}, {"clause": "plot", "n": n})
